@@ -101,6 +101,11 @@ func runC04(c *Ctx, r *Report) {
 			nSet++
 			call := ci.(*ssa.Call)
 			fname := ssaFuncName(fn)
+			if fn == c.cacheStoreFn() {
+				// obligations (and known findings) about the cache store are those of applyFunction, whether or not
+				// the part after the lookup was split off into its own method
+				fname = ssaFuncName(c.SSAFn(c.Fn("eval", "State.applyFunction")))
+			}
 			pos := c.Pos(call.Pos())
 			args := call.Common().Args // recv, fn, args, result, output
 			// (a) miss counter unchanged
@@ -157,6 +162,26 @@ func runC04(c *Ctx, r *Report) {
 						sameKey = true
 					}
 				}
+				// the store sits in a function that is handed the key by the one that looked it up
+				if p1, ok := args[1].(*ssa.Parameter); ok && !sameKey {
+					if p2, ok := args[2].(*ssa.Parameter); ok {
+						sites := c.staticCallSites(fn)
+						sameKey = len(sites) > 0
+						for _, site := range sites {
+							found := false
+							a1, a2 := site.Common().Args[paramIndex(fn, p1)], site.Common().Args[paramIndex(fn, p2)]
+							for _, g := range callsIn(site.Parent(), cacheGet) {
+								ga := g.Common().Args
+								if len(ga) >= 3 && sameValue(ga[1], a1) && ga[2] == a2 {
+									found = true
+								}
+							}
+							if !found {
+								sameKey = false
+							}
+						}
+					}
+				}
 				r.Check(sameKey, "C04.R1", fname, "Cache.Set uses the key of the lookup", pos, "Set is keyed differently from the Get that missed")
 				// (d) output = bytes of the buffer installed as s.Out before the evaluation
 				r.Check(c.outputIsCapturedBuffer(fn, args[4], evalCall, stateT), "C04.R1", fname, "cached output is the captured buffer", pos, "the output stored with the result is not the content of the buffer that replaced s.Out during the evaluation")
@@ -172,41 +197,80 @@ func runC04(c *Ctx, r *Report) {
 		afn := c.SSAFn(c.Fn("eval", "State.applyFunction"))
 		cacheGet, cacheSet := c.Fn("eval", "Cache.Get"), c.Fn("eval", "Cache.Set")
 		gets, sets := callsIn(afn, cacheGet), callsIn(afn, cacheSet)
+		// the store may sit in a function applyFunction hands the key to (the part after the lookup split off)
+		var handOver *ssa.Call // the call, in applyFunction, of the function that stores
+		var sfn *ssa.Function
+		if len(gets) == 1 && len(sets) == 0 {
+			eachInstr(afn, func(in ssa.Instruction) {
+				call, ok := in.(*ssa.Call)
+				if !ok {
+					return
+				}
+				if h := call.Common().StaticCallee(); h != nil && h.Pkg == afn.Pkg && len(callsIn(h, cacheSet)) == 1 && len(c.staticCallSites(h)) == 1 {
+					handOver, sfn = call, h
+				}
+			})
+			if sfn != nil {
+				sets = callsIn(sfn, cacheSet)
+			}
+		}
 		if len(gets) != 1 || len(sets) != 1 {
 			r.Undecided("C04.R1: expected one Cache.Get and one Cache.Set in applyFunction")
 		} else {
 			get, set := gets[0].(*ssa.Call), sets[0].(*ssa.Call)
 			key := get.Common().Args[2]
 			var writers []string
-			eachInstr(afn, func(in ssa.Instruction) {
-				call, ok := in.(*ssa.Call)
-				if !ok || call == get || call == set || !reachesInstr(get, call) || !reachesInstr(call, set) {
-					return
+			// segment: the instructions of fn that can run after `from` (nil: from entry) and before `to`, writing `key`
+			segment := func(fn *ssa.Function, key ssa.Value, from, to ssa.Instruction) {
+				between := func(in ssa.Instruction) bool {
+					return (from == nil || reachesInstr(from, in)) && reachesInstr(in, to)
 				}
-				callee := call.Common().StaticCallee()
-				if callee == nil {
-					return
-				}
-				for i, a := range call.Common().Args {
-					if a != key || i >= len(callee.Params) {
-						continue
+				eachInstr(fn, func(in ssa.Instruction) {
+					call, ok := in.(*ssa.Call)
+					if !ok || ssa.Instruction(call) == from || ssa.Instruction(call) == to || !between(call) {
+						return
 					}
-					if w := f.mutates[callee.Params[i]]; len(w) > 0 {
-						var ws []string
-						for k := range w {
-							ws = append(ws, k)
+					callee := call.Common().StaticCallee()
+					if callee == nil {
+						return
+					}
+					for i, a := range call.Common().Args {
+						if a != key || i >= len(callee.Params) {
+							continue
 						}
-						sort.Strings(ws)
-						writers = append(writers, ssaFuncName(callee)+": "+strings.Join(ws, ", "))
+						if w := f.mutates[callee.Params[i]]; len(w) > 0 {
+							var ws []string
+							for k := range w {
+								ws = append(ws, k)
+							}
+							sort.Strings(ws)
+							writers = append(writers, ssaFuncName(callee)+": "+strings.Join(ws, ", "))
+						}
+					}
+				})
+				// direct writes into the list in the function itself
+				f.rawWrites(fn, func(in ssa.Instruction, target ssa.Value, desc string) {
+					if target == key && between(in) {
+						writers = append(writers, fn.Name()+": "+desc)
+					}
+				})
+			}
+			if sfn == nil {
+				segment(afn, key, get, set)
+			} else {
+				segment(afn, key, get, handOver)
+				// inside the storing function the key is the parameter the list was handed over as
+				handed := false
+				for i, a := range handOver.Common().Args {
+					if a == key && i < len(sfn.Params) {
+						handed = true
+						segment(sfn, sfn.Params[i], nil, set)
 					}
 				}
-			})
-			// direct writes into the list in applyFunction itself
-			f.rawWrites(afn, func(in ssa.Instruction, target ssa.Value, desc string) {
-				if target == key && reachesInstr(get, in) && reachesInstr(in, set) {
-					writers = append(writers, "applyFunction: "+desc)
+				if !handed {
+					writers = append(writers, "the list of the lookup is not the one handed to "+ssaFuncName(sfn))
 				}
-			})
+			}
 			r.Check(len(writers) == 0, "C04.R1", ssaFuncName(afn), "the argument list is not written between Cache.Get and Cache.Set", c.Pos(set.Pos()),
 				"the list used as the lookup key is written in place before the result is stored under it ("+strings.Join(writers, "; ")+"): the result of f(1,[[4]]) is stored under the key of f(1,[4]) when the variadic spread overwrites the last argument, and the next f(1,[4]) returns it")
 		}
@@ -401,7 +465,7 @@ func runC04(c *Ctx, r *Report) {
 	// path established both "miss counter unchanged" and "cantCache flag false" (or only the former, the flag
 	// implying a changed counter: TriggerNoCache bumps it, see the writer obligations below).
 	{
-		fn := c.SSAFn(c.Fn("eval", "State.applyFunction"))
+		fn := c.cacheStoreFn()
 		fname := ssaFuncName(fn)
 		getMisses := c.Fn("object", "Environment.GetMisses")
 		var flagRead *ssa.Call
@@ -1230,4 +1294,65 @@ func (c *Ctx) localHelpers(fn *ssa.Function, depth int, stop ...*types.Func) []*
 		frontier = next
 	}
 	return res
+}
+
+// cacheStoreFn: applyFunction, or the function of its package it tail-calls that evaluates the body and
+// stores into the cache (applyFunction split after the lookup): the function the post-evaluation rules are about.
+func (c *Ctx) cacheStoreFn() *ssa.Function {
+	afn := c.SSAFn(c.Fn("eval", "State.applyFunction"))
+	cacheSet := c.Fn("eval", "Cache.Set")
+	if len(callsIn(afn, cacheSet)) > 0 {
+		return afn
+	}
+	res := afn
+	eachInstr(afn, func(in ssa.Instruction) {
+		call, ok := in.(*ssa.Call)
+		if !ok {
+			return
+		}
+		h := call.Common().StaticCallee()
+		if h == nil || h.Pkg != afn.Pkg || len(callsIn(h, cacheSet)) != 1 || len(c.staticCallSites(h)) != 1 {
+			return
+		}
+		// its result is what applyFunction returns, as is
+		for _, ref := range *call.Referrers() {
+			if _, isRet := ref.(*ssa.Return); isRet {
+				res = h
+			}
+		}
+	})
+	return res
+}
+
+// staticCallSites: the static calls of fn in the module (nil when fn is also used as a value).
+func (c *Ctx) staticCallSites(fn *ssa.Function) []*ssa.Call {
+	var res []*ssa.Call
+	taken := false
+	for _, g := range c.ModuleSSAFuncs() {
+		eachInstr(g, func(in ssa.Instruction) {
+			for _, op := range in.Operands(nil) {
+				if *op != ssa.Value(fn) {
+					continue
+				}
+				if call, ok := in.(*ssa.Call); ok && call.Common().Value == *op {
+					res = append(res, call)
+				} else {
+					taken = true
+				}
+			}
+		})
+	}
+	if taken {
+		return nil
+	}
+	return res
+}
+
+func paramIndex(fn *ssa.Function, p *ssa.Parameter) int {
+	for i, q := range fn.Params {
+		if q == p {
+			return i
+		}
+	}
+	return -1
 }
